@@ -89,6 +89,8 @@ theorem applyRes_exitCount (cfg : Cfg) (pol : Policy) (step : Nat) (tickEv : Ev)
       · rw [exitCount_append]; exact Nat.add_le_add_left (Nat.le_of_eq rfl) _
   | addCollected buf ev =>
     simp only [applyRes, Res.isOutcome]
+    split
+    · simp
     split <;> simp [exitCount_append, exitCount, Cmd.isExit]
   | deleteCollected buf => simp only [applyRes, Res.isOutcome]; split <;> simp
   | addWaiter wid waiterEv req timeout ty =>
